@@ -186,6 +186,14 @@ class _Continue(Exception):
     pass
 
 
+class _Break(Exception):
+    pass
+
+
+class NonTermination(ShapeError):
+    """a loop that does not end on a model input within the interpreter's bound"""
+
+
 class _Raise(Exception):
     def __init__(self, what):
         self.what = what
@@ -281,6 +289,7 @@ class Interp:
         self.module_cache = {}
         self.assumptions = set()
         self.tables = {}
+        self.max_loop = 5000
 
     def note(self, kind, where, detail):
         self.events.append((kind, where, detail))
@@ -536,8 +545,13 @@ class Interp:
         return Top("comparison of unknowns", deps=self.leaves(l) + self.leaves(r))
 
     def e_BinOp(self, e, sc):
-        l = self.eval(e.left, sc)
-        r = self.eval(e.right, sc)
+        return self.binop(self.eval(e.left, sc), self.eval(e.right, sc), e.op)
+
+    def binop(self, l, r, op):
+        class _E:  # the operator, as the expression node carried it
+            pass
+        e = _E()
+        e.op = op
         if isinstance(e.op, ast.BitOr):
             return self.dict_union(l, r)
         if isinstance(e.op, ast.Add):
@@ -648,11 +662,16 @@ class Interp:
                     return Const(v.v[lo.v:hi.v])
                 if isinstance(v, Leaf):
                     return v.derive(f"[{lo.v}:{hi.v}]")
+                if isinstance(v, Obj) and v.cls in ("Buffer", "BufferView"):
+                    n = len(range(v.fields["size"].v)[lo.v:hi.v])
+                    return Obj("BufferView", OrderedDict(size=Const(n), base=v.fields.get("base", v)))
             return Top("slice")
         k = self.eval(e.slice, sc)
         return self.getitem(v, k, e)
 
     def getitem(self, v, k, node=None):
+        if isinstance(v, Obj) and "__getitem__" in v.fields:
+            return self.call(v.fields["__getitem__"], [k], {}, node)
         if isinstance(v, Choice):
             return Choice([self.getitem(a, k, node) for a in v.alts])
         if isinstance(v, DictS) and isinstance(k, Const):
@@ -993,7 +1012,11 @@ class Interp:
             if isinstance(st.op, ast.BitOr):
                 self.bind(st.target, self.dict_union(cur, val), sc)
                 return
-            self.bind(st.target, Top("augmented assignment"), sc)
+            if isinstance(cur, ListLit) and isinstance(st.op, ast.Add) and isinstance(val, (ListLit, TupS)):
+                cur.elts.extend(val.elts)  # list += ... extends in place
+                return
+            res = self.binop(cur, val, st.op)
+            self.bind(st.target, res if not isinstance(res, Top) else Top("augmented assignment", deps=res.deps), sc)
             return
         if isinstance(st, ast.Return):
             raise _Return(self.eval(st.value, sc) if st.value is not None else Const(None))
@@ -1008,12 +1031,18 @@ class Interp:
             return
         if isinstance(st, ast.For):
             it = self.eval(st.iter, sc)
+            broke = False
             for item in self.iterate(it, st.iter):
                 self.bind(st.target, item, sc)
                 try:
                     self.exec_block(st.body, sc, yields)
                 except _Continue:
                     continue
+                except _Break:
+                    broke = True
+                    break
+            if not broke and st.orelse:
+                self.exec_block(st.orelse, sc, yields)
             return
         if isinstance(st, (ast.FunctionDef,)):
             owner = sc.owner
@@ -1022,6 +1051,27 @@ class Interp:
                 fi = owner.children.get(st.name)
             sc.vars[st.name] = Fn("repo", func=fi, name=st.name, closure=sc, node=st)
             return
+        if isinstance(st, ast.While):
+            n = 0
+            while True:
+                t = self.truth(self.eval(st.test, sc))
+                if t is None:
+                    raise ShapeError(f"while loop on a condition of unknown truth: {short(st.test, 50)}")
+                if not t:
+                    self.exec_block(st.orelse, sc, yields)
+                    break
+                n += 1
+                if n > self.max_loop:
+                    raise NonTermination(f"`while {short(st.test, 40)}` is still running after {self.max_loop} iterations")
+                try:
+                    self.exec_block(st.body, sc, yields)
+                except _Continue:
+                    continue
+                except _Break:
+                    break
+            return
+        if isinstance(st, ast.Break):
+            raise _Break()
         if isinstance(st, ast.Continue):
             raise _Continue()
         if isinstance(st, ast.Pass):
